@@ -1,5 +1,6 @@
 import ColoVerif.Proofs.LegalizeIdem
 import ColoVerif.Proofs.LegalizeIdem2Circuit
+import ColoVerif.Proofs.LegalizeIdem2Twice
 /-
 C11 — legalization does not move an already legal single-row placement.
 
@@ -121,18 +122,24 @@ theorem legalize_idempotent_binary32 (p : Params) (c : Circuit) (hp : p.check = 
   rw [hexact _ (cellAt_mem _ i hi), hexact _ (cellAt_mem _ j hj)]
   exact keyOrder_exact p h0 h1 _ i j hi hj hy hh hw1 hw2 hx
 
-/-- **Legalizing twice = legalizing once**: if the first call returns `c'` and `c'` is in the domain
-and legal (C01's obligation on the result) then the second call returns `c'` again. -/
+/-- **Legalizing twice = legalizing once** (exact key, `0 ≤ orderingWidth ≤ 1`), for *arbitrary*
+input positions: `c` in the C01 domain (`DomL` = `C01.Dom`, by `rfl` in Properties/C01.lean) with all
+movable cells one row high.  If the first call returns `c'` then the second call returns `c'` again.
+The first result is in the domain and single-row (sizes and turn status are kept), legal (C01's
+`legalize_legal`) and orientation-legal (each cell carries the orientation `getOrientation` gave it
+in the one free segment that contains it, and `evaluatePlacement` refused INVALID), so
+`legalize_idempotent` applies to it. -/
 theorem legalize_twice (p : Params) (c c' : Circuit) (h0 : 0 ≤ p.ow) (h1 : p.ow ≤ 1)
-    (hfirst : legalizeExact p c = .ok c')
-    (hd : DomC c') (hs : SingleRow c') (hl : LegalC c') (ho : OrientLegal c') :
-    legalizeExact p c' = .ok c' := by
-  have hp : p.check = true := by
-    unfold legalizeExact legalizeWith at hfirst
-    by_cases hc : p.check = true
-    · exact hc
-    · simp [hc] at hfirst
-  exact legalize_idempotent p c' hp h0 h1 hd hs hl ho
+    (hd : DomL c) (hs : SingleRow c) (hfirst : legalizeExact p c = .ok c') :
+    legalizeExact p c' = .ok c' :=
+  legalizeWith_twice id p c c' hd hs hfirst (keyOrder_exact p h0 h1 _)
+
+/-- the same for any rounding of the key (e.g. the compiled binary32 one) that keeps the
+left-to-right order on the first result -/
+theorem legalize_twice_any_key (rnd : Rat → Rat) (p : Params) (c c' : Circuit) (hd : DomL c) (hs : SingleRow c)
+    (hfirst : legalizeWith rnd p c = .ok c') (hk : KeyOrder rnd p (movable c')) :
+    legalizeWith rnd p c' = .ok c' :=
+  legalizeWith_twice rnd p c c' hd hs hfirst hk
 
 def positions (c : Circuit) : List (Int × Int) := c.cells.map fun cl => (cl.x, cl.y)
 def resultPositions : Except Err Circuit → Option (List (Int × Int))
@@ -199,6 +206,33 @@ example : resultPositions (legalize demoParams demoCircuit) = some (positions de
     resultPositions (legalizeExact demoParams demoCircuit) = some (positions demoCircuit) := by
   decide +kernel
 
+/-- non-vacuity of `legalize_twice`: an illegal input of the domain (all cells piled up at the origin,
+one polarised cell with the wrong orientation, a split row): the first call moves and re-orients
+cells, the second call changes nothing -/
+def pileCircuit : Circuit :=
+  ⟨[⟨2, 2, 4, 0, .N, true, true, .ANY⟩, ⟨3, 2, 0, 0, .FN, false, false, .SAME⟩, ⟨2, 2, 0, 0, .FN, false, false, .ANY⟩,
+    ⟨2, 2, 0, 0, .N, false, false, .ANY⟩, ⟨4, 2, 0, 0, .N, false, false, .OPPOSITE⟩],
+   [], [⟨⟨0, 10, 0, 2⟩, .N⟩, ⟨⟨0, 10, 2, 4⟩, .FS⟩]⟩
+
+example : DomL pileCircuit ∧ SingleRow pileCircuit := by
+  constructor
+  · unfold DomL; decide
+  · unfold SingleRow; decide
+
+def resultCells : Except Err Circuit → Option (List (Int × Int × Orient))
+  | .ok c => some (c.cells.map fun cl => (cl.x, cl.y, cl.orient))
+  | .error _ => none
+
+def twice (p : Params) (c : Circuit) : Except Err Circuit :=
+  match legalizeExact p c with
+  | .ok c' => legalizeExact p c'
+  | .error e => .error e
+
+example : resultCells (legalizeExact demoParams pileCircuit)
+      = some [(4, 0, .N), (0, 2, .FS), (0, 0, .FN), (2, 0, .N), (3, 2, .N)] ∧
+    resultCells (twice demoParams pileCircuit) = resultCells (legalizeExact demoParams pileCircuit) := by
+  decide +kernel
+
 /-- non-vacuity of `abacus_keeps_own_row`: the context is satisfiable (fresh legalizers, one row) -/
 example : SearchCtx [⟨⟨0, 10, 0, 2⟩, .N⟩] [RowLeg.State.new 0 10] ⟨3, 2, .ANY, 4, 0, .N⟩ 0 := by
   refine ⟨by decide, rfl, by simp [SortedBy], ?_, ?_, by decide, rfl, ⟨0, [], nc_new 0 10, by decide⟩, by decide,
@@ -242,6 +276,26 @@ theorem idempotence_fails_wide_ordering :
     wideParams.check = true ∧ positions wideCircuit = [(0, 0), (4, 0)] ∧
     resultPositions (legalize wideParams wideCircuit) = some [(1, 0), (0, 0)] ∧
     resultPositions (legalizeExact wideParams wideCircuit) = some [(1, 0), (0, 0)] := by
+  decide +kernel
+
+/-- A second way out of the property's assumption "the float key is exact", found while proving
+`legalize_idempotent_binary32` (replayed on the real code, corpus/C11/kf2-candidate.json):
+`orderingHeight` is not bounded by `LegalizationParameters::check`.  One row `[0,10]`, the cell at
+x = 4 (width 1) listed before the cell at x = 0 (width 4), `orderingWidth = 1/2`,
+`orderingHeight = 2^30`: in binary32 both keys round to 2^31 (the x and width terms are absorbed), the
+tie is broken by index, and the compiled code swaps the cells although all coordinates are tiny and
+`orderingWidth ∈ [0,1]`; with the exact key nothing moves (`legalize_idempotent`). -/
+def tallParams : Params := ⟨0, 1/2, 1073741824, 0⟩
+def tallCircuit : Circuit :=
+  ⟨[⟨1, 2, 4, 0, .N, false, false, .ANY⟩, ⟨4, 2, 0, 0, .N, false, false, .ANY⟩], [], [⟨⟨0, 10, 0, 2⟩, .N⟩]⟩
+
+theorem idempotence_binary32_needs_exact_key :
+    tallParams.check = true ∧ 0 ≤ tallParams.ow ∧ tallParams.ow ≤ 1 ∧
+    positions tallCircuit = [(4, 0), (0, 0)] ∧
+    resultPositions (legalize tallParams tallCircuit) = some [(0, 0), (1, 0)] ∧
+    resultPositions (legalizeExact tallParams tallCircuit) = some [(4, 0), (0, 0)] ∧
+    orderKey f32 tallParams.ow tallParams.oy tallParams.oh ⟨1, 2, .ANY, 4, 0, .N⟩
+      = orderKey f32 tallParams.ow tallParams.oy tallParams.oh ⟨4, 2, .ANY, 0, 0, .N⟩ := by
   decide +kernel
 
 end ColoVerif.C11
